@@ -54,7 +54,7 @@ macro_rules! impl_skip_until_op {
 
       fn actual_subscribe(self, observer: O) -> Self::Unsub {
         // We need to keep a reference to the observer from two places
-        let share_observer = $observer::new(observer);
+        let share_observer = $observer::new::<Item, Err>(observer);
 
         let notify_observer = SkipUntilNotifierObserver(share_observer.clone());
         let b = self.notifier.actual_subscribe(notify_observer);
@@ -81,11 +81,15 @@ pub struct SkipUntilNotifierObserver<O>(O);
 pub struct ShareObserver<O> {
   observer: MutRc<Option<O>>,
   skip: Rc<Cell<bool>>,
+  // `is_finished` of the main observer, for the notifier side which does not
+  // know the main stream's item and error types
+  finished: fn(&MutRc<Option<O>>) -> bool,
 }
 
 pub struct ShareObserverThreads<O> {
   observer: MutArc<Option<O>>,
   skip: Arc<AtomicBool>,
+  finished: fn(&MutArc<Option<O>>) -> bool,
 }
 
 macro_rules! impl_observer {
@@ -121,6 +125,7 @@ macro_rules! impl_observer {
         $name {
           observer: self.observer.clone(),
           skip: self.skip.clone(),
+          finished: self.finished,
         }
       }
     }
@@ -141,9 +146,11 @@ macro_rules! impl_observer {
       #[inline]
       fn complete(self) {}
 
+      // the notifier is needed only until it has opened the gate, and only
+      // as long as the main stream's subscriber is still interested
       #[inline]
       fn is_finished(&self) -> bool {
-        false
+        !self.0.is_skipping() || (self.0.finished)(&self.0.observer)
       }
     }
   };
@@ -153,10 +160,14 @@ impl_observer!(ShareObserver);
 impl_observer!(ShareObserverThreads);
 
 impl<O> ShareObserver<O> {
-  fn new(observer: O) -> Self {
+  fn new<Item, Err>(observer: O) -> Self
+  where
+    O: Observer<Item, Err>,
+  {
     Self {
       observer: MutRc::own(Some(observer)),
       skip: Rc::new(Cell::new(true)),
+      finished: |o| Observer::<Item, Err>::is_finished(o),
     }
   }
 
@@ -170,10 +181,14 @@ impl<O> ShareObserver<O> {
 }
 
 impl<O> ShareObserverThreads<O> {
-  fn new(observer: O) -> Self {
+  fn new<Item, Err>(observer: O) -> Self
+  where
+    O: Observer<Item, Err>,
+  {
     Self {
       observer: MutArc::own(Some(observer)),
       skip: Arc::new(AtomicBool::new(true)),
+      finished: |o| Observer::<Item, Err>::is_finished(o),
     }
   }
 
